@@ -1262,8 +1262,8 @@ def check_case(res: Result, case: Case, cmds: list[dict], chunking: str, meta: d
 
 def plan(tier, seed):
     if tier == 'quick':
-        return [{'shard': i, 'streams': 94} for i in range(16)]
-    return [{'shard': i, 'streams': 1180} for i in range(64)]
+        return [{'shard': i, 'streams': 94} for i in range(16)] + [{'shard': 900 + i, 'daemon': True, 'part': i, 'cases': 2, 'lines': 60} for i in range(4)]
+    return [{'shard': i, 'streams': 1180} for i in range(64)] + [{'shard': 900 + i, 'daemon': True, 'part': i, 'cases': 8, 'lines': 120} for i in range(8)]
 
 
 LENGTHS = [1, 1, 2, 3, 4, 6, 8, 12, 16, 24, 32, 48, 64, 100, 150, 200]
@@ -1318,7 +1318,150 @@ def run_case(res: Result, g: dict, replay: dict):
     return case, cmds
 
 
+def run_daemon(desc):
+    """the REAL daemon, a REAL helper process writing the command stream on its stdout and reading the answers on its stdin,
+    one neighbor ESTABLISHED with a scripted peer (the in-process level keeps every session down): one terminal answer per
+    command, in order, `done` for the valid ones and `error` for the unknown ones, nothing after the last; the process stays
+    alive and logs no unhandled exception.  Which neighbors a selector reaches is judged in-process, not here"""
+    import json as _json
+
+    from vlib import daemon
+
+    res = Result()
+    r = random.Random(desc['seed'] * 2750159 + desc['part'])
+    for ci in range(desc['cases']):
+        while True:
+            nbs = gen_neighbors(r)
+            if all(':' not in nb['peer'] for nb in nbs):
+                break
+        text = config_text(nbs, 'json').replace('    run /bin/true;', '    run @PY@ @DIR@/player.py @DIR@/script @DIR@/replies;', 1)
+        text = text.replace('    passive true;', '    passive false;', 1)  # the first neighbor (127.0.0.2) connects to the scripted peer
+        cmds = [c for c in gen_stream(r, nbs, 6, desc['lines'], False) if not c['verb'].startswith('ack-') and c['verb'] not in ('empty', 'group-start', 'group-end', 'reset') and c['line'].strip() and '\n' not in c['line']]
+        script = '#sleep 1.0\n' + ''.join(c['line'] + '\n' for c in cmds)
+        d = daemon.Daemon(text, files={'script': script}, env={'exabgp_log_level': 'ERROR'})
+        wit = {'config': text, 'level': 'daemon'}
+        peer = None
+        try:
+            d.start()
+            peer = d.accept()
+            peer.establish(nbs[0]['pas'])
+            import threading
+
+            stop = threading.Event()
+
+            def reader():  # the peer keeps reading (and answers nothing): the daemon must never block on its socket
+                while not stop.is_set():
+                    t, b = peer.read_message(0.2)
+                    if t is None:
+                        break
+
+            th = threading.Thread(target=reader, daemon=True)
+            th.start()
+            ls = d.wait_lines('replies', lambda ls: any(x.startswith('["end"') or x.startswith('["timeout"') for x in ls), timeout=60 + 2 * len(cmds))
+            if any(x.startswith('["timeout"') for x in ls):
+                # the helper waited 20 s for the answer to one command; the answer is given 20 more seconds
+                time.sleep(20.0)
+                ls = d.lines('replies')
+                k = [i for i, x in enumerate(ls) if x.startswith('["timeout"')][0]
+                late = [x for x in ls[k + 1 :] if x.startswith('["got"')]
+                unanswered = _json.loads(ls[k])[1]
+                sent_so_far = [_json.loads(x)[1] for x in ls[: k + 1] if x.startswith('["sent"')]
+                stop.set()
+                res.violation(
+                    'C14/daemon:command-never-answered' + ('' if not late else ':answered-late'),
+                    f'no terminal answer within 40 s to {unanswered[:100]!r} (command {len(sent_so_far)} of the stream); the daemon is {"alive" if d.alive() else "gone"}',
+                    dict(wit, stream=sent_so_far[-40:], log=d.tail(1500)),
+                    'daemon',
+                )
+                continue
+            time.sleep(1.0)
+            stop.set()
+            th.join(2)
+            replies = [_json.loads(x) for x in d.lines('replies')]
+            log = d.tail(6000)
+            alive = d.alive()
+        except daemon.Inconclusive as e:
+            if d.proc is not None and d.proc.poll() is not None:
+                res.violation('C14/daemon:process-exits', f'the daemon exited (rc {d.proc.poll()}) while answering the command stream: {str(e)[:200]}', dict(wit, log=d.tail(2500), script=script[-3000:]), 'daemon')
+            else:
+                res.inconclusive.append('daemon: ' + str(e)[:300])
+            continue
+        finally:
+            try:
+                if peer is not None:
+                    peer.close()
+            except Exception:  # noqa
+                pass
+            d.stop()
+        if not alive:
+            res.violation('C14/daemon:process-exits', 'the daemon exited while answering the command stream', dict(wit, log=log[-2500:], script=script[-3000:]), 'daemon')
+            continue
+        if 'exception.unhandled' in log or 'Traceback' in log:
+            k = log.find('Traceback')
+            res.violation('C14/daemon:unhandled-exception', 'the daemon logged an unhandled exception: ' + log[max(0, k) : k + 400], dict(wit, log=log[-3000:], script=script[-3000:]), 'daemon')
+            continue
+
+        def terminal(line):
+            x = line.strip()
+            if x in ('done', 'error'):
+                return x
+            if '"answer": "done"' in x or '"answer": "error"' in x:
+                return 'error' if '"answer": "error"' in x else 'done'
+            return None
+
+        # split the log by command
+        per = []
+        cur = None
+        after_end = []
+        ended = False
+        for kind, textline in replies:
+            if kind == 'sent':
+                cur = {'cmd': textline, 'got': [], 'timeout': False}
+                per.append(cur)
+            elif kind == 'timeout' and cur is not None:
+                cur['timeout'] = True
+            elif kind == 'end':
+                ended = True
+            elif kind == 'got':
+                (after_end if ended else cur['got'] if cur is not None else after_end).append(textline)
+        bad = False
+        if len(per) != len(cmds):
+            res.inconclusive.append(f'daemon: the helper sent {len(per)} of {len(cmds)} commands')
+            continue
+        for c, p_ in zip(cmds, per):
+            terms = [t for t in (terminal(x) for x in p_['got']) if t]
+            cls = 'daemon:ack:' + c['verb']
+            w = dict(wit, command=c['line'], got=p_['got'][-6:], expect=c['expect'])
+            if p_['timeout'] or len(terms) != 1:
+                res.violation(f'C14/daemon:ack-count:{c["verb"]}', f'command answered with {len(terms)} terminal replies (timeout={p_["timeout"]}) instead of exactly one: {c["line"][:80]!r}', w, cls)
+                bad = True
+                break
+            plain = c.get('form') in ('none', None) or (c.get('selector') == [('*', [])])
+            if not plain:
+                res.ok(cls, ('daemon', c['verb'], 'selector', terms[0]))  # whom a selector reaches decides done/error: judged in-process
+                continue
+            if c['expect'] == 'ok' and terms[0] != 'done':
+                res.violation(f'C14/daemon:valid-command-answered-error:{c["verb"]}', f'a valid command was answered error with a session up: {c["line"][:100]!r} -> {p_["got"][-2:]}', w, cls)
+                bad = True
+                break
+            if c['expect'] in ('unknown', 'bad') and terms[0] != 'error':
+                res.violation(f'C14/daemon:invalid-command-answered-done:{c["verb"]}', f'an invalid command was answered done: {c["line"][:100]!r}', w, cls)
+                bad = True
+                break
+            res.ok(cls, ('daemon', c['verb'], c['expect'], terms[0]))
+        if bad:
+            continue
+        stray = [x for x in after_end if terminal(x)]
+        if stray:
+            res.violation('C14/daemon:answer-after-the-last-command', f'{len(stray)} terminal replies arrived after the last command had been answered', dict(wit, stray=stray[:5]), 'daemon')
+            continue
+        res.ok('daemon:stream', None)
+    return res
+
+
 def run_shard(desc):
+    if desc.get('daemon'):
+        return run_daemon(desc)
     res = Result()
     exa.quiet()
     if 'case' in desc:  # replay of one case
@@ -1365,7 +1508,7 @@ def finish(merged, tier, seed):
 
 REQUIRED_CLASSES = {
     'quick': ['order:' + c for c in CHUNKINGS]
-    + ['order:bigline', 'ack:pipe-fifo:fast', 'ack:pipe-fifo:slow']
+    + ['order:bigline', 'ack:pipe-fifo:fast', 'ack:pipe-fifo:slow', 'daemon:stream']
     + ['ack:text:done', 'ack:text:error', 'ack:json:done', 'ack:json:error']
     + ['noeffect:unknown:junk', 'noeffect:unknown:v4-on-v6', 'noeffect:bad-prefix', 'noeffect:bad-attr', 'noeffect:partial-nlri', 'noeffect:truncated']
     + ['selector:v4-star:many', 'selector:v4-ip:1', 'selector:v4-ip-terms:1', 'selector:v4-ip-wrongterm:0', 'selector:v4-nomatch-ip:0', 'selector:v4-comma:many']
